@@ -58,6 +58,7 @@ impl chk::GetProgram for JitterPrograms {
 enum Kind {
     Const(Word), Pass, MemProd(Word), PreRead(Key), PostRead(Key), PostReadExt(usize, Key), Fail,
     LeafConst(Word), LeafFold(Option<Word>), LeafData(Vec<Word>), LeafPostCheck(Key, Option<Word>),
+    Raw(Vec<Op>),
 }
 
 fn push(w: Word) -> Op { PUSH(w) }
@@ -74,6 +75,7 @@ fn read_prog(ops: &mut Vec<Op>, key: &Key, op: Op, ext: Option<&ContentAddress>)
 fn program_of(kind: &Kind, cin: usize, contracts: &[ContentAddress]) -> Vec<Op> {
     let mut ops = vec![];
     match kind {
+        Kind::Raw(v) => ops.extend(v.iter().cloned()),
         Kind::Const(k) => ops.push(push(*k)),
         Kind::Pass => {}
         Kind::MemProd(v) => ops.extend([push(2), ALOC, push(*v), SWAP, STO]),
@@ -182,6 +184,8 @@ fn gen_dag(rng: &mut Rng, contracts: &[ContentAddress], keys: &[Key], hints: &[(
         let edge_start = if is_leaf[*lab] && !rng.chance(1, 4) { u16::MAX } else { edges.len() as u16 };
         let mut cs: Vec<u16> = ch[*lab].iter().map(|v| num[*v] as u16).collect();
         if rng.chance(1, 2) { cs.reverse(); }
+        // now and then an edge to a node that does not exist (accepted by validation; ignored by the schedule)
+        if !is_leaf[*lab] && rng.chance(1, 14) { let at = rng.below(cs.len() as u64 + 1) as usize; cs.insert(at, n as u16 + rng.below(3) as u16); }
         edges.extend(cs);
         nodes.push(Node { edge_start, program_address: addr });
         programs.push(prog);
@@ -404,6 +408,18 @@ pub fn corpus() -> Vec<GCase> {
     // cyclic graph and a dangling edge
     v.push(mk(vec![(Kind::Pass, 0, 0), (Kind::Pass, 0, 1)], vec![1, 0], vec![], vec![]));
     v.push(mk(vec![(Kind::Pass, 0, 0), (Kind::LeafConst(1), 0, u16::MAX)], vec![1, 5], vec![], vec![]));
+    // two roots feeding one leaf: a prefix of the parents' outputs is exactly as large as the stack / memory limit, so the
+    // next parent's words are what overflows (or what the leaf needs); both numberings of the roots
+    for big_first in [true, false] {
+        let order = |big: Kind, small: Kind, leaf: Kind| -> Vec<(Kind, usize, u16)> {
+            if big_first { vec![(big, 0, 0), (small, 0, 1), (leaf, 0, u16::MAX)] } else { vec![(small, 0, 0), (big, 0, 1), (leaf, 0, u16::MAX)] } };
+        for n in [4093i64, 4094, 4095] {
+            v.push(mk(order(Kind::Raw(vec![push(n), RES]), Kind::Raw(vec![push(7)]), Kind::Raw(vec![POP, push(4095), DROP, push(1)])), vec![2, 2], vec![], vec![]));
+        }
+        v.push(mk(order(Kind::Raw(vec![push(10240), ALOC, POP]), Kind::Raw(vec![push(1), ALOC, POP]), Kind::Raw(vec![push(1)])), vec![2, 2], vec![], vec![]));
+        v.push(mk(order(Kind::Raw(vec![push(10240), ALOC, POP]), Kind::Raw(vec![push(1)]), Kind::Raw(vec![push(1), EQ])), vec![2, 2], vec![], vec![]));
+        v.push(mk(order(Kind::Raw(vec![push(10239), ALOC, POP]), Kind::Raw(vec![push(1), ALOC, POP, push(1)]), Kind::Raw(vec![push(1), EQ])), vec![2, 2], vec![], vec![]));
+    }
     v
 }
 
@@ -603,7 +619,24 @@ pub fn run_perm(a: &Args) {
         cases.push(GCase { preds: vec![(c0.clone(), s1.predicate_to_solve.predicate.clone(), p1), (c0.clone(), s2.predicate_to_solve.predicate.clone(), p2)],
             programs, sols: vec![s1, s2], state: BTreeMap::new(), collect_all: false, family: "f10", known_class: Some("cross_solution_dup_key") });
     }
-    for i in 0..a.count as u64 { let mut rng = Rng::for_case(a.seed, 4, i); let mut c = gen_case(&mut rng); if c.sols.len() == 1 && rng.chance(1, 2) { continue; } c.collect_all = false; cases.push(c); }
+    for i in 0..a.count as u64 {
+        let mut rng = Rng::for_case(a.seed, 4, i);
+        if rng.chance(1, 8) {
+            // a set in which the same (mutation-free) solution occurs more than once, next to others: [a, a, b], [a, b, a], ...
+            let c0 = ContentAddress([0x10; 32]);
+            let prog = Program(asm::to_bytes(vec![push(1)]).collect());
+            let pa = essential_hash::content_addr(&prog);
+            let pred = Predicate { nodes: vec![Node { edge_start: u16::MAX, program_address: pa.clone() }], edges: vec![] };
+            let pr = essential_hash::content_addr(&pred);
+            let kinds: Vec<Solution> = (0..2).map(|k| Solution { predicate_to_solve: PredicateAddress { contract: c0.clone(), predicate: pr.clone() }, predicate_data: vec![vec![k as Word]], state_mutations: vec![] }).collect();
+            let n = rng.range(3, 4) as usize;
+            let mut sols: Vec<Solution> = (0..n).map(|_| kinds[rng.below(2) as usize].clone()).collect();
+            sols[0] = kinds[0].clone(); sols[1] = kinds[0].clone(); sols[n - 1] = kinds[1].clone();
+            cases.push(GCase { preds: vec![(c0.clone(), pr.clone(), pred)], programs: vec![(pa, prog.0)], sols, state: BTreeMap::new(), collect_all: false, family: "repeated_solutions", known_class: None });
+            continue;
+        }
+        let mut c = gen_case(&mut rng); if c.sols.len() == 1 && rng.chance(1, 2) { continue; } c.collect_all = false; cases.push(c);
+    }
     for (id, c) in cases.iter().enumerate() {
         if !a.only.map(|o| o == id as u64).unwrap_or(true) { continue; }
         let n = c.sols.len();
